@@ -13,3 +13,83 @@ Definition check_opt (c : opt_case) : bool :=
   | Some o => chunk_eqb o (c_after c)
   | None => false
   end.
+
+(* ---------- family optworld: translation validation at WORLD level ----------
+   A real template set is registered twice, with the fusion pass off and on
+   (tera::verif::set_optimize); `template_listing` / `component_listings` give the finalized
+   chunks (own chunk, root chunk, block lineage, component table) the VM would run. Checked:
+     - the hypotheses of C09_optimize_world_correct hold for the real unoptimised world
+       (world_ok: unfused, targets in range, Iterate forward, C07's check_chunk, every chunk);
+     - Model/OptWorld.v `opt_world` of the unoptimised world IS the optimised world the engine
+       built (every `optimize` call defined, every chunk equal);
+     - for sets inside the World0 subset, the model VM renders the same on the unoptimised
+       world, on opt_world of it, and both equal the real render (pass on; the harness checks
+       that the real render with the pass off is the same). *)
+From TeraV Require Import Model.VFormat Model.VM Model.World0 Model.StackCheck Model.OptWorld
+  Proofs.OptWorldBase.
+Local Open Scope nat_scope.
+
+Definition code_eqb : list instr -> list instr -> bool := list_eqb instr_eqb.
+
+Definition template_eqb (a b : template) : bool :=
+  str_eqb (t_name a) (t_name b) && code_eqb (t_chunk a) (t_chunk b) &&
+  code_eqb (t_root_chunk a) (t_root_chunk b) &&
+  list_eqb (fun x y => str_eqb (fst x) (fst y) && list_eqb code_eqb (snd x) (snd y))
+           (t_lineage a) (t_lineage b) &&
+  Bool.eqb (t_autoescape a) (t_autoescape b).
+
+Record ow_render := { or_entry : str; or_block : option str; or_ctx : ctx; or_impl : res str }.
+
+Record optworld_case := {
+  ow_before : list (str * template);
+  ow_after : list (str * template);
+  ow_comp_before : list (str * list instr);
+  ow_comp_after : list (str * list instr);
+  ow_renders : list ow_render }.     (* empty outside the World0 subset *)
+
+Definition ow_no_def : comp_def := {| cd_params := []; cd_rest := None |}.
+
+Definition ow_world (tpls : list (str * template)) (comps : list (str * list instr)) : world :=
+  let w := world0 tpls in
+  {| w_templates := tpls;
+     w_components := map (fun nc => (fst nc, (ow_no_def, snd nc))) comps;
+     w_build_ctx := w_build_ctx w; w_filter := w_filter w; w_test := w_test w;
+     w_function := w_function w; w_escape := w_escape w; w_format := w_format w;
+     w_math := w_math w; w_negate := w_negate w; w_cmp := w_cmp w; w_eq := w_eq w;
+     w_contains := w_contains w; w_as_key := w_as_key w; w_map_get := w_map_get w;
+     w_get_attr := w_get_attr w; w_max_depth := w_max_depth w |}.
+
+Definition ow_model_render (wd : world) (optimised : bool) (r : ow_render) : res str :=
+  match assoc_get (w_templates wd) (or_entry r) with
+  | None => RErr ErrOther
+  | Some tpl =>
+      match render_to str wr_str wd (N.to_nat 6000) tpl (or_block r) (or_ctx r) [] [] with
+      | RDone _ (SinkTop out) => ROk out
+      | RDone _ (SinkBuf _) => RErr ErrPanic
+      | RFail e => RErr e
+      | ROutOfFuel => RErr ErrOther
+      end
+  end.
+
+Definition world_eqb (a : world) (tpls : list (str * template)) (comps : list (str * list instr)) : bool :=
+  list_eqb (fun x y => str_eqb (fst x) (fst y) && template_eqb (snd x) (snd y)) (w_templates a) tpls &&
+  list_eqb (fun x y => str_eqb (fst x) (fst y) && code_eqb (snd x) (snd y))
+           (map (fun e => (fst e, snd (snd e))) (w_components a)) comps.
+
+Definition check_optworld (c : optworld_case) : bool :=
+  let wb := ow_world (ow_before c) (ow_comp_before c) in
+  world_ok wb && opt_world_defined wb &&
+  world_eqb (opt_world wb) (ow_after c) (ow_comp_after c) &&
+  forallb (fun r => res_eqb str_eqb (ow_model_render wb false r) (or_impl r) &&
+                    res_eqb str_eqb (ow_model_render (opt_world wb) true r) (or_impl r))
+          (ow_renders c).
+
+(* for replays: the side conditions, definedness, per-template equality, the model renders *)
+Definition model_optworld (c : optworld_case)
+  : bool * bool * list (str * bool) * list (res str * res str) :=
+  let wb := ow_world (ow_before c) (ow_comp_before c) in
+  (world_ok wb, opt_world_defined wb,
+   map (fun nt => (fst nt, match assoc_get (ow_after c) (fst nt) with
+                           | Some t => template_eqb (snd nt) t | None => false end))
+       (w_templates (opt_world wb)),
+   map (fun r => (ow_model_render wb false r, ow_model_render (opt_world wb) true r)) (ow_renders c)).
